@@ -206,7 +206,7 @@ Qed.
 Lemma tp_tunnel_state c2 d rd p : tg_cinw w c2 d rd p None REQ_CONNECT_PROBE_DATA (Some REQ_CONNECT_PROBE_DATA) None t ->
   tn_tun (tn_fin (tn_to_tunnel c2)) /\ c_txs (tn_fin (tn_to_tunnel c2)) = gw_done w ++ [Some t] /\ k_read (c_in (tn_to_tunnel c2)) = rd.
 Proof.
-  intros [A1 A2 A3 A4 A5 A6 A7 A8 A9 A10 A11 A12 A13 A14 A15 A16 A17]. destruct A17 as [A17 A18].
+  intros [A1 A2 A3 A4 A5 A6 A7 A8 A9 A10 A11 A12 A13 A14 A15 A16 A17]. destruct A17 as (A17 & A18 & A19).
   split; [|split; [exact A14|exact A6]].
   constructor; try reflexivity.
   - left. change (c_in_tx (tn_fin (tn_to_tunnel c2))) with (c_in_tx c2). rewrite A13. discriminate.
